@@ -264,6 +264,7 @@ func (fr *frame) run(b *ssa.BasicBlock) Value {
 				if !ok {
 					unsupported("non-boolean condition %T in %s", fr.get(x.Cond), fr.fn)
 				}
+				in.e.site = fr.fn.String()
 				if in.e.branch(c) {
 					next = b.Succs[0]
 				} else {
